@@ -106,7 +106,7 @@ pub fn explore(ctx: &Ctx) {
     ctx.assume("not demanded: that a conventionally valid time stays valid under an 'always' policy");
     let lats = [0.0, 30.0, -30.0, 49.0, -49.0, 55.0, -55.0, 62.0, -62.0, 67.5, -67.5, 70.0, -70.0];
     let zs: Vec<(f64, f64)> = if quick { vec![(25.0, 2.0)] } else { vec![(25.0, 2.0), (-122.0, -8.0)] };
-    let dates: Vec<NaiveDate> = if quick { dates_of_years(&[2023, 2024]) } else { (1600..2400).step_by(3).flat_map(|y| dates_years(y, y)).collect() };
+    let dates: Vec<NaiveDate> = if quick { dates_of_years(&[2023, 2024]) } else { { let mut ys: Vec<i32> = (1600..2400).step_by(20).collect(); ys.extend([2023, 2024, 2399]); ys.into_iter().flat_map(|y| dates_years(y, y)).collect() } };
     let pols = policies14(48.5);
     let mut jobs = vec![];
     for &lat in &lats {
